@@ -57,6 +57,16 @@ class ShardWriterNP(ShardWriterBase):
 
             values (dict[str, npt.NDArray[np.generic]]): Attribute values.
         """
+        # Make sure that exactly the described attributes are present (so that
+        # all buffered attributes have the same number of examples).
+        expected_names = {
+            attribute.name
+            for attribute in self.dataset_structure.saved_data_description
+        }
+        if set(values) != expected_names:
+            raise ValueError(f"Expected attributes {expected_names} but got "
+                             f"{set(values)}")
+
         # Just buffer all values.
         if not self._buffer:
             self._buffer = {
